@@ -864,6 +864,7 @@ Plan gen_vm_plan(const std::string &prop, Rng &rng, long long sub, const std::st
   gp.allow_noparam = rng.chance(2, 3);
   gp.init_vars = rng.chance(7, 10);
   gp.stop_in_callee = rng.chance(1, 8);
+  gp.jump_into_loop = rng.chance(1, 3) ? 35 : 0;
   unsigned macros = 0;
   if (rng.chance(1, 3)) macros = (unsigned)rng.below(16);
   gp.macros = macros;
